@@ -61,40 +61,40 @@ func TestCheck(t *testing.T) {
 
 	// Coverage gates: the monitor must have seen every kind of decision.
 	for b, min := range map[string]int64{
-		"recognised":                          2000,
-		"attributed_entitled":                 3000,
-		"auth_failure_served_anonymous":       800,
-		"anonymous_served":                    5000,
-		"anonymous_despite_invalid_carrier":   2000,
-		"unknown_dedicated_dropped":           100,
-		"not_attributed:deleted":              1500,
-		"not_attributed:detached":             1500,
-		"attributed_auto_device":              8,
-		"attributed_via:doh-user":             100,
-		"attributed_via:doh-path":             100,
-		"attributed_via:sni":                  300,
-		"attributed_via:edns":                 100,
-		"attributed_via:dedicated":            50,
-		"attributed_via:linked":               50,
-		"proto:dns":                           2000,
-		"proto:dot":                           1000,
-		"proto:doq":                           500,
-		"proto:doh":                           5000,
-		"proto:dnscrypt":                      200,
-		"e2e_requests:e2e-doh":                200,
-		"e2e_requests:e2e-dot":                150,
-		"e2e_requestinfo_userinfo_as_assumed": 200,
-		"e2e_requestinfo_sni_as_assumed":      300,
-		"db_calls:real:device-id":             1000,
-		"db_calls:real:linked-ip":             80,
-		"db_calls:real:dedicated-ip":          100,
-		"concurrent_requests":                    4000,
+		"recognised":                               2000,
+		"attributed_entitled":                      3000,
+		"auth_failure_served_anonymous":            800,
+		"anonymous_served":                         5000,
+		"anonymous_despite_invalid_carrier":        2000,
+		"unknown_dedicated_dropped":                100,
+		"not_attributed:deleted":                   1500,
+		"not_attributed:detached":                  1500,
+		"attributed_auto_device":                   8,
+		"attributed_via:doh-user":                  100,
+		"attributed_via:doh-path":                  100,
+		"attributed_via:sni":                       300,
+		"attributed_via:edns":                      100,
+		"attributed_via:dedicated":                 50,
+		"attributed_via:linked":                    50,
+		"proto:dns":                                2000,
+		"proto:dot":                                1000,
+		"proto:doq":                                500,
+		"proto:doh":                                5000,
+		"proto:dnscrypt":                           200,
+		"e2e_requests:e2e-doh":                     200,
+		"e2e_requests:e2e-dot":                     150,
+		"e2e_requestinfo_userinfo_as_assumed":      200,
+		"e2e_requestinfo_sni_as_assumed":           300,
+		"db_calls:real:device-id":                  1000,
+		"db_calls:real:linked-ip":                  80,
+		"db_calls:real:dedicated-ip":               100,
+		"concurrent_requests":                      4000,
 		"concurrent_prior_unknown_dedicated_drops": 16,
-		"concurrent_unknown_dedicated_drops":     100,
-		"concurrent_same_handler_overlap_pairs":  2000,
-		"concurrent_recognised":                  500,
-		"concurrent_anonymous_served":            500,
-		"db_calls:real:human-id":              20,
+		"concurrent_unknown_dedicated_drops":       100,
+		"concurrent_same_handler_overlap_pairs":    2000,
+		"concurrent_recognised":                    500,
+		"concurrent_anonymous_served":              500,
+		"db_calls:real:human-id":                   20,
 	} {
 		r.Require(b, min)
 	}
